@@ -59,7 +59,7 @@ def run_case(case, ctx):
     # scale classes: moderate / up to 3 / the full legitimate range (rare, strongly coupled basis states: unnormalised
     # probabilities far below any absolute epsilon)
     sc = [gen.SCALES_MODERATE, [0.5, 1.0, 3.0], gen.SCALES_FULL, [10.0, 20.0, 30.0]][case["rep"] % 4]
-    am, ph = gen.draw_model(rng, kind, nv, nh, na, scales=sc, max_energy=300.0)
+    am, ph = gen.draw_model(rng, kind, nv, nh, na, scales=sc, max_energy=300.0, phase_aux_bias=(case["rep"] % 3 == 1))
     ctx.seen("scale_classes", case["rep"] % 4)
     if case["rep"] % 2:
         def warm(s_):
